@@ -214,7 +214,7 @@ fn solve_all_check(c: &Case, kb: &KnowledgeBase, refr: &RefResult, eng: &EngineR
     let ms = t0.elapsed().as_millis();
     let _ = take_output();
     // a timeout report is legitimate when a second really passed (machine stall): inconclusive
-    if got.iter().any(|s| s.starts_with("Query timed out")) && ms >= 1000 { return Err(format!("STALL: solve_all really took {} ms", ms)); }
+    if got.iter().any(|s| s.starts_with("Query timed out")) && ms >= 1000 { return Err(format!("STALL: solve_all really took {} ms (a stalled machine, or a search that really exceeds the limit)", ms)); }
     // independent formatter: `$Var = value` for each top-level variable argument, in order;
     // the value text is the engine's own Display of the answer that next_solution gave
     // (already checked against the reference), because rendering is C19's subject
